@@ -54,6 +54,9 @@ func NewCtx(p *load.Program, tier string, r *report.Result) *Ctx {
 	return &Ctx{P: p, Tier: tier, R: r, impls: map[string][]*types.Named{}}
 }
 
+// UseCHA switches the dynamic-call resolution to the CHA call graph (audit pass).
+func (c *Ctx) UseCHA(on bool) { c.useCHA = on }
+
 // Rule is the entry point of one property.
 type Rule func(c *Ctx)
 
